@@ -65,17 +65,17 @@ func ecmaGoroutines() (int, string) {
 }
 
 func Run(cfg fw.Config, rec *fw.Rec) {
-	rec.Rule = "12 non-terminating interpreted scripts (while/for with property, array and string operations, unbounded and mutual recursion, loops inside try/catch and try/finally, closures, binding mutation, emitting) x deadlines {already expired, 0, 1, 5, 20, 100, 300 ms} x {deadline, asynchronous cancel at a pseudo-random instant} x concurrency {1, 4, 16, 64} x {Interpreter.Exec, Spec.Walk with 3 error settings}; each call must return the timeout error no later than deadline + 10 s (hard bound; observed latencies reported), the walk must route it like any action error, and after each combination no goroutine with an interpreter frame may remain (polled up to 5 s); non-trivial = execution that was interrupted; distinct by (script, deadline, cancel mode, concurrency, via)"
-	rec.Required = []string{"interrupted", "interrupted_async_cancel", "routed_as_action_error", "no_goroutine_left", "concurrency_64", "already_expired"}
+	rec.Rule = "12 non-terminating interpreted scripts (while/for with property, array and string operations, unbounded and mutual recursion, loops inside try/catch and try/finally, closures, binding mutation, emitting) x deadlines {already expired, 0, 1, 5, 20, 100, 300 ms} x {deadline, asynchronous cancel at a pseudo-random instant, cancel of a context that also has a far deadline, cancel of an ancestor context} x concurrency {1, 4, 16, 64} x {Interpreter.Exec, Spec.Walk with 3 error settings}; each call must return the timeout error no later than deadline + 10 s (hard bound; observed latencies reported), the walk must route it like any action error, and after each combination no goroutine with an interpreter frame may remain (polled up to 5 s); non-trivial = execution that was interrupted; distinct by (script, deadline, cancel mode, concurrency, via)"
+	rec.Required = []string{"interrupted", "interrupted_async_cancel", "interrupted_by_cancel_before_a_far_deadline", "routed_as_action_error", "no_goroutine_left", "concurrency_64", "already_expired"}
 	rec.Assume = []string{"time is spent in interpreted code, not in one long built-in call", "hard bound deadline + 10 s; lateness below the bound is reported, not judged"}
 	interp := ecmascript.NewInterpreter()
 	var combos []combo
 	for _, l := range loops {
 		for _, d := range deadlinesMs {
-			for _, c := range []string{"deadline", "async"} {
+			for _, c := range []string{"deadline", "async", "async-under-far-deadline", "parent-cancelled"} {
 				for _, conc := range []int{1, 4, 16, 64} {
 					for _, via := range []string{"exec", "walk"} {
-						if c == "async" && d < 5 {
+						if c != "deadline" && d < 5 && !(c == "async-under-far-deadline" && d < 0) {
 							continue
 						}
 						combos = append(combos, combo{l.Name, d, c, conc, via})
@@ -124,6 +124,26 @@ func Run(cfg fw.Config, rec *fw.Rec) {
 				var cancel context.CancelFunc
 				d := time.Duration(c.Deadline) * time.Millisecond
 				switch {
+				case c.Cancel == "async-under-far-deadline" && c.Deadline < 0:
+					// a context with a far deadline that is already cancelled
+					ctx, cancel = context.WithTimeout(context.Background(), time.Hour)
+					cancel()
+					d = 0
+				case c.Cancel == "async-under-far-deadline":
+					// the context has a (far) deadline but ends by cancellation
+					ctx, cancel = context.WithTimeout(context.Background(), time.Hour)
+					at := time.Duration(r.Int63n(int64(d) + 1))
+					d = at
+					go func() { time.Sleep(at); cancel() }()
+				case c.Cancel == "parent-cancelled":
+					// an ancestor is cancelled (say at crew shutdown); the execution's own context has a far deadline
+					parent, pcancel := context.WithCancel(context.Background())
+					var ccancel context.CancelFunc
+					ctx, ccancel = context.WithTimeout(parent, time.Hour)
+					cancel = func() { pcancel(); ccancel() }
+					at := time.Duration(r.Int63n(int64(d) + 1))
+					d = at
+					go func() { time.Sleep(at); pcancel() }()
 				case c.Cancel == "async":
 					ctx, cancel = context.WithCancel(context.Background())
 					at := time.Duration(r.Int63n(int64(d) + 1))
@@ -235,6 +255,9 @@ func Run(cfg fw.Config, rec *fw.Rec) {
 				if c.Cancel == "async" {
 					rec.Bucket("interrupted_async_cancel")
 				}
+				if c.Cancel == "async-under-far-deadline" || c.Cancel == "parent-cancelled" {
+					rec.Bucket("interrupted_by_cancel_before_a_far_deadline")
+				}
 				if c.Deadline < 0 {
 					rec.Bucket("already_expired")
 				}
@@ -242,8 +265,10 @@ func Run(cfg fw.Config, rec *fw.Rec) {
 		}
 		wg.Wait()
 		if violated {
-			// the stuck execution keeps its goroutine; do not also count it as a leak
-			continue
+			// A stuck execution keeps spinning on a processor for good; more of them would
+			// starve everything else in this process.  The violation is recorded: stop this batch.
+			rec.Bucket("batch_stopped_after_an_execution_did_not_stop")
+			break
 		}
 		rec.Bucket(fmt.Sprintf("concurrency_%d", c.Conc))
 		// (d) leak monitor: poll until no interpreter goroutine beyond the baseline remains
